@@ -37,6 +37,8 @@ type Loc struct {
 	Idx    string // Int term, elem only
 	T      types.Type
 	Owner  types.Type // field: pointer type of the owning struct
+	Parent *Loc       // sub: location of the enclosing by-value struct (an element of a slice of structs)
+	Field  int        // sub: field index within Parent's struct type
 }
 
 type Tuple []interface{}
@@ -546,6 +548,11 @@ func (c *FnCtx) loadLoc(st *State, l *Loc) Term {
 		return Term{S: fmt.Sprintf("(select %s %s)", c.get(st, l.Region), l.Ref), Sort: c.sortOf(l.T), T: l.T}
 	case "elem":
 		return Term{S: fmt.Sprintf("(select (select %s %s) %s)", c.get(st, l.Region), l.Ref, l.Idx), Sort: c.sortOf(l.T), T: l.T}
+	case "sub":
+		// field of a by-value struct stored in an element: read the struct, select the field
+		pv := c.loadLoc(st, l.Parent)
+		su := l.Parent.T.Underlying().(*types.Struct)
+		return Term{S: fmt.Sprintf("(%s_%s %s)", c.sortOf(l.Parent.T), sanitize(su.Field(l.Field).Name()), pv.S), Sort: c.sortOf(l.T), T: l.T}
 	}
 	panic("loadLoc " + l.Kind)
 }
@@ -557,6 +564,20 @@ func (c *FnCtx) storeLoc(st *State, l *Loc, v Term) {
 	case "elem":
 		cur := c.get(st, l.Region)
 		c.set(st, l.Region, fmt.Sprintf("(store %s %s (store (select %s %s) %s %s))", cur, l.Ref, cur, l.Ref, l.Idx, v.S))
+	case "sub":
+		// rebuild the enclosing struct value with this field replaced and store it back
+		pv := c.loadLoc(st, l.Parent)
+		su := l.Parent.T.Underlying().(*types.Struct)
+		srt := c.sortOf(l.Parent.T)
+		var fs []string
+		for i := 0; i < su.NumFields(); i++ {
+			if i == l.Field {
+				fs = append(fs, v.S)
+			} else {
+				fs = append(fs, fmt.Sprintf("(%s_%s %s)", srt, sanitize(su.Field(i).Name()), pv.S))
+			}
+		}
+		c.storeLoc(st, l.Parent, Term{S: fmt.Sprintf("(mk_%s %s)", srt, strings.Join(fs, " ")), Sort: srt, T: l.Parent.T})
 	default:
 		panic("storeLoc " + l.Kind)
 	}
